@@ -31,6 +31,7 @@ class GaussFamily:
         topo = e.get("topo", "lsn")
         self.topo = topo
         self.s = float(e.get("s", 1.0)) * float(e.get("pscale", 1.0))
+        self.poff = float(e.get("poff", 0.0))  # constant added to psi (moves the zero of psi)
         self.L = float(e.get("scale", 1.0))  # geometric scale factor of the whole machine
         self.zoff = float(e.get("zoff", 0.0))  # vertical offset of the whole machine (applied after scaling)
         dR, dZ = e.get("shift", [0.0, 0.0])
@@ -61,6 +62,7 @@ class GaussFamily:
         self.nZ = int(e.get("nZ", 65))
         self.fs = float(e.get("fs", 1.0))
         self.prof = e.get("prof", "exp")
+        self.fvar = float(e.get("fvar", 0.3))  # size of the variation of fpol across the plasma
         # the 1-d profile grid reaches pn_max in normalised psi (geqdsk: always 1)
         self.pn_max = float(e.get("pn_max", 1.3))
         self._crit = None
@@ -75,7 +77,7 @@ class GaussFamily:
         out = 0.0
         for Rk, Zk, a, w in self.centres:
             out = out + a * np.exp(-((R - Rk) ** 2 + (Z - Zk) ** 2) / w**2)
-        return self.s * out
+        return self.s * out + self.poff
 
     def grad(self, R, Z):
         R = np.asarray(R, float)
@@ -174,8 +176,8 @@ class GaussFamily:
     def F_of_psinorm(self, pn):
         pn = np.clip(np.asarray(pn, float), 0.0, self.pn_max)
         if self.prof == "quad":
-            return self.fs * (2.0 + 0.3 * (1 - pn) ** 2)
-        return self.fs * (2.0 + 0.3 * np.exp(-2.0 * pn))
+            return self.fs * (2.0 + self.fvar * (1 - pn) ** 2)
+        return self.fs * (2.0 + self.fvar * np.exp(-2.0 * pn))
 
     def P_of_psinorm(self, pn):
         pn = np.clip(np.asarray(pn, float), 0.0, self.pn_max)
@@ -250,6 +252,11 @@ def make_wall(w, mirror=False):
             pts.append((1.5 + 0.3 * r * c, 0.5 * r * s))
     else:
         raise ValueError(kind)
+    rot = int(w.get("rot", 0))
+    if rot:
+        # start the (open) vertex list somewhere else: which edge closes the polygon matters to code
+        # that forgets the closing edge
+        pts = pts[rot % len(pts):] + pts[: rot % len(pts)]
     if w.get("cw", False):
         pts = pts[::-1]
     sc = float(w.get("scale", 1.0))
